@@ -8,6 +8,7 @@ import (
 	"strings"
 
 	"golang.org/x/tools/go/ssa"
+	"golang.org/x/tools/go/ssa/ssautil"
 )
 
 // ---------------------------------------------------------------------------
@@ -644,9 +645,14 @@ func (t *Tracer) foldCompare(fr *Frame, c ssa.Value) (bool, bool) {
 	cx, okx := x.V.(*ssa.Const)
 	cy, oky := y.V.(*ssa.Const)
 	fresh := func(v ssa.Value) bool {
-		switch v.(type) {
+		switch x := v.(type) {
 		case *ssa.Alloc, *ssa.MakeClosure, *ssa.Function, *ssa.MakeMap, *ssa.MakeSlice, *ssa.MakeChan, *ssa.MakeInterface, *ssa.Global:
 			return true
+		case *ssa.UnOp:
+			// a package-level error value (`errMissingResult = &reserr.Error{…}`): set once, to an allocation
+			if g, ok := x.X.(*ssa.Global); ok && x.Op == token.MUL {
+				return t.P.globalAlwaysSet(g)
+			}
 		}
 		return false
 	}
@@ -1114,17 +1120,21 @@ func isSmallPredicate(f *ssa.Function) bool {
 	if b, ok := res.At(0).Type().Underlying().(*types.Basic); !ok || b.Kind() != types.Bool {
 		return false
 	}
-	return len(callsIn(f)) == 0
+	// no calls — or only calls of predicates over their parameters (`return s.state.isReady()`)
+	for _, c := range callsIn(f) {
+		g := c.Common().StaticCallee()
+		if g == nil || g == f || len(g.Blocks) == 0 || !(isParamDecision(g) || isParamPredicate(g)) {
+			return false
+		}
+	}
+	return true
 }
 
 // isParamDecision: a bool function without calls whose every branch tests
 // its parameters against constants (`switch s { case a, b: return true }`).
 func isParamDecision(g *ssa.Function) bool {
-	res := g.Signature.Results()
-	if res.Len() != 1 || len(g.Blocks) < 2 || len(g.Blocks) > 16 || len(callsIn(g)) > 0 {
-		return false
-	}
-	if b, ok := res.At(0).Type().Underlying().(*types.Basic); !ok || b.Kind() != types.Bool {
+	// (whatever it returns — a bool, an error chosen from its arguments: `responseError(rerr, hasResult)`)
+	if len(g.Blocks) < 2 || len(g.Blocks) > 16 || len(callsIn(g)) > 0 {
 		return false
 	}
 	var self []ssa.Value
@@ -1309,6 +1319,42 @@ func (t *Tracer) interesting(f *ssa.Function, depth int) (res bool) {
 				if _, ok := in.(*ssa.If); ok && t.Spec.Eval != nil {
 					return true // constant propagation may decide branches inside the helper
 				}
+				// a function value handed to the helper is called here (`done()` for a `done func()` parameter):
+				// what that value is — the caller knows — can be an event of the rule
+				if cl, ok := in.(ssa.CallInstruction); ok && t.Spec.Classify != nil && !cl.Common().IsInvoke() && cl.Common().StaticCallee() == nil {
+					v := cl.Common().Value
+					if u, isU := v.(*ssa.UnOp); isU && u.Op == token.MUL {
+						v = u.X
+					}
+					switch y := v.(type) {
+					case *ssa.Parameter:
+						if y.Parent() == f {
+							return true
+						}
+					case *ssa.FreeVar:
+						// captured from f: a parameter of f stored into the closure's cell
+						if mc := t.P.parent[g]; mc != nil {
+							for bi, fv := range g.FreeVars {
+								if fv == y && bi < len(mc.Bindings) {
+									switch b := mc.Bindings[bi].(type) {
+									case *ssa.Parameter:
+										if b.Parent() == f {
+											return true
+										}
+									case *ssa.Alloc:
+										for _, r := range *b.Referrers() {
+											if st, isS := r.(*ssa.Store); isS && st.Addr == ssa.Value(b) {
+												if pp, isP := st.Val.(*ssa.Parameter); isP && pp.Parent() == f {
+													return true
+												}
+											}
+										}
+									}
+								}
+							}
+						}
+					}
+				}
 				// a predicate helper: its returned expression is a decision of the caller
 				if r, ok := in.(*ssa.Return); ok && len(r.Results) == 1 && t.Spec.Branch != nil {
 					switch r.Results[0].(type) {
@@ -1351,4 +1397,55 @@ func (t *Tracer) interesting(f *ssa.Function, depth int) (res bool) {
 		}
 	}
 	return false
+}
+
+
+// globalAlwaysSet: every store to the package-level variable g, anywhere in
+// the program, stores a freshly allocated value (its initialiser): a load of
+// it is never nil.
+func (p *Prog) globalAlwaysSet(g *ssa.Global) bool {
+	if p.globalSet == nil {
+		p.globalSet = map[*ssa.Global]int{}
+		for fn := range ssautil.AllFunctions(p.SSA) {
+			for _, b := range fn.Blocks {
+				for _, in := range b.Instrs {
+					st, ok := in.(*ssa.Store)
+					if !ok {
+						continue
+					}
+					gg, ok := st.Addr.(*ssa.Global)
+					if !ok {
+						continue
+					}
+					good := false
+					switch v := st.Val.(type) {
+					case *ssa.Alloc, *ssa.MakeInterface, *ssa.MakeMap, *ssa.MakeSlice, *ssa.MakeClosure, *ssa.Function:
+						good = true
+					case *ssa.Const:
+						good = !v.IsNil()
+					case *ssa.Call:
+						// a constructor all of whose returns are allocations (reserr.InternalError(...))
+						if sf := v.Call.StaticCallee(); sf != nil && len(sf.Blocks) > 0 {
+							good = true
+							for _, b2 := range sf.Blocks {
+								if r, isR := b2.Instrs[len(b2.Instrs)-1].(*ssa.Return); isR {
+									if len(r.Results) != 1 {
+										good = false
+									} else if _, isAl := r.Results[0].(*ssa.Alloc); !isAl {
+										good = false
+									}
+								}
+							}
+						}
+					}
+					if good && p.globalSet[gg] != 2 {
+						p.globalSet[gg] = 1
+					} else {
+						p.globalSet[gg] = 2
+					}
+				}
+			}
+		}
+	}
+	return p.globalSet[g] == 1
 }
